@@ -5184,6 +5184,10 @@ class DfaCompileCtx:
             # Never bypass an accepting state: being in it is observable (DONE from feed/end)
             if transition.target in self.dfa.accepting_states: continue
 
+            # The merged transition consumes its byte, so an action on this one that may leave early (a break under an if, ...)
+            # would take that byte with it; on the fallthrough it leaves it for whatever comes next.
+            if any(x.get_target_override_mode() != ActionOverrideMode.NONE for x in transition.actions): continue
+
             effective = set(transition.on_values)
             if DFTransition.Else in transition.on_values:
                 effective.update(transition.target.compute_foreign_else_definition(orig_state))
